@@ -99,6 +99,9 @@ var c30Observers = []c30Op{
 	{Name: "exit", Src: "exit"},
 	{Name: "exit-trap", Src: "trap 'echo bye:$?' EXIT; (exit 6)"},
 	{Name: "status", Src: "(exit 6)"},
+	{Name: "redir-residue", Src: "echo x >/dev/null; echo visible; echo e2 >&2; { echo blk; } 2>&1"},
+	{Name: "assign-status", Src: "v=1; echo \"as=$?\"; w=$(exit 4); echo \"cs=$?\"; w=$nothing; echo \"as2=$?\""},
+	{Name: "source-params", Src: ". ./lib.sh x y 2>/dev/null || . ../lib.sh x y; echo \"$*|$libv\"; . ./lib.sh 2>/dev/null || . ../lib.sh; echo \"$*\""},
 	{Name: "subst", Src: "echo $(echo cs; exit 3) $?; cat <<< hs | cat; echo \"${PIPESTATUS[@]}\""},
 }
 
